@@ -339,6 +339,10 @@ type CountFS struct {
 	// FailOp > 0: the operation numbered FailOp-1 fails once with ErrInjected instead of reaching the
 	// file system (an I/O error, not a crash: the caller sees it and unwinds)
 	FailOp int
+	// FailPanics: the failing operation panics instead (the code under test does not get to handle
+	// anything: the closest a harness gets to the process dying at that point while the machine and
+	// everything handed to the file system stay as they are)
+	FailPanics bool
 }
 
 // ErrInjected is the error of an operation failed through CountFS.FailOp.
@@ -436,6 +440,9 @@ func (c *CountFS) op(kind, path string) error {
 			c.Log = append(c.Log, Op{kind + "(failed)", Canon(path)})
 		}
 		c.mu.Unlock()
+		if c.FailPanics {
+			panic(ErrInjected)
+		}
 		return ErrInjected
 	}
 	if c.armAt >= 0 && c.n == c.armAt && !c.fired {
